@@ -491,6 +491,13 @@ static void block_huge(size_t SZ, const std::string& s, bool verbose) {
         if (haszero) b.call("find_last_of", {L(pos)}, [=](Vals& o, auto v, auto x) { o.size_t_(v.find_last_of(x, pos)); });
         if (!haszero) b.call("find_last_not_of", {L(pos)}, [=](Vals& o, auto v, auto x) { o.size_t_(v.find_last_not_of(x, pos)); });
     }
+    // backward searches from a small pos: they look at the first bytes only, but the reverse-iterator arithmetic
+    // (size_ - (pos + 1), size_ - 1 - distance) runs on offsets beyond 2^31 / 2^32
+    for (size_t pos : {size_t(0), size_t(2)}) {
+        b.call("rfind", {L(pos)}, [=](Vals& o, auto v, auto x) { o.size_t_(v.rfind(x, pos)); });
+        b.call("find_last_of", {L(pos)}, [=](Vals& o, auto v, auto x) { o.size_t_(v.find_last_of(x, pos)); });
+        b.call("find_last_not_of", {L(pos)}, [=](Vals& o, auto v, auto x) { o.size_t_(v.find_last_not_of(x, pos)); });
+    }
     b.finish();
 }
 
